@@ -415,11 +415,8 @@ def check(rep: Report, tier: str, seed: int) -> None:
     ham_level(rep, seeded(seed * 7919 + 29), 60 if quick else 1000)
     e2e(rep, seeded(seed * 104729 + 29), 9 if quick else 150, True)
     pulser_meta(rep, seeded(seed * 1299709 + 29), 3 if quick else 40)
-<<<<<<< HEAD
     pulser_ids(rep, seeded(seed * 15485863 + 29), 3 if quick else 30)
-=======
     extra.merge()
->>>>>>> pkg/expconj
     rep.extra["t_total_s"] = round(time.time() - t0, 1)
     if rep.broken and not rep.failing:
         search(rep, seed, 30 if quick else 300)
